@@ -28,7 +28,9 @@ struct track
     double tcp_connect_timeout;
     struct tcp_opts tcp_opts;
 
+    /* points to local_ip_data, or is NULL */
     const struct xcm_addr_ip *local_ip;
+    struct xcm_addr_ip local_ip_data;
     uint16_t local_port;
     int64_t scope;
 
@@ -94,6 +96,12 @@ static struct track *track_create(int fd4, int fd6,
 	.ip_idx = -1,
 	.log_ref = log_ref
     };
+
+    /* the caller's address need not outlive this call */
+    if (local_ip != NULL) {
+	track->local_ip_data = *local_ip;
+	track->local_ip = &track->local_ip_data;
+    }
 
     if (initial_delay > 0) {
 	track->timer_id = timer_mgr_schedule(timer_mgr, initial_delay);
